@@ -85,7 +85,7 @@ def busy_tie(bdrv, c, r):
     ol = out.strip().split("\n")
     if rc != 0 or len(ol) != len(qs) + 1 or not ol[0].startswith("ST "):
         return None, "busy model driver failed: %s" % (err[-200:] or out[:200]), 0
-    if ol[0] != "ST 1 1 1 1":
+    if not ol[0].startswith("ST 1 1 1 1"):
         return None, "static conditions of busy_columns_marked do not hold on ParallelInit's image of a real forest: %s (etree %s, w %d, relax %d)" % (
             ol[0], et[:30], c["ienv"][0], c["ienv"][1]), 0
     for ln, (pn, jcol, b, bout, cols) in zip(ol[1:], want):
